@@ -3,7 +3,7 @@ SPECIFICATION Spec
 CONSTANTS
   MaxLen = 9
   Fuel = 80
-  Prods = {"app", "let", "arith", "div", "str", "br", "data", "pair", "codata", "fix", "vfn"}
+  Prods = {"app", "let", "arith", "div", "str", "br", "data", "pair", "codata", "fix", "vfn", "vlet"}
   Faults = {}
   Root = "os"
   BindTys = {"int", "unit", "gi"}
